@@ -34,3 +34,6 @@ void *fx16_bsearch_overrun(const void *key, const void *base, size_t nmemb, size
     }
     return NULL;
 }
+/* bit-scan rule */
+int scan_full(unsigned long w) { return __builtin_ctzl(w); }
+int scan_narrow(unsigned long w) { return __builtin_ctz(w); }
